@@ -2004,3 +2004,149 @@ Proof.
     destruct Hi as [Hi|Hi]; [left|right]; apply mem_In; exact Hi.
   - right. apply negb_true_iff. apply Nat.eqb_neq. intro E. apply H. apply dedup_full_nodup. exact E.
 Qed.
+
+(* ---------- kids of non-IR nodes never change under the module-list operations ---------- *)
+Lemma fold_remove_mods_nonir w known vs x :
+  Forest w known -> (forall v, In v vs -> kindof w v = KMod) -> kindof w x <> KIR ->
+  fold_left (fun l v => remove_id v l) vs (kids w x) = kids w x.
+Proof.
+  intros F Hv Kx. rewrite fold_remove_filter. apply filter_all. intros c Hc. apply negb_true_iff. apply mem_false.
+  intro Hi. apply (f_two_ended w known F) in Hc.
+  destruct (parent_of_mod_is_ir w known c x F (Hv c Hi) Hc) as [K _]. contradiction.
+Qed.
+
+(* ---------- the flags, individually ---------- *)
+Theorem hooks_no_keyerror w known ir v :
+  Forest w known -> CacheInv w -> is_k w ir KIR = true ->
+  (In v (kids w ir) -> snd (ml_remove_hook w ir v) = true) /\
+  (forall k, nth_error (kids w ir) k = Some v -> snd (ml_del_at w ir k) = true) /\
+  (is_k w v KMod = true -> snd (ml_add_hook w ir v) = true) /\
+  (is_k w v KMod = true -> forall i, snd (ml_insert w ir i v) = true) /\
+  (is_k w v KMod = true -> snd (ml_append w ir v) = true).
+Proof.
+  intros F C G. pose proof G as G'. apply is_k_spec in G'. destruct G' as [Hir Kir].
+  split; [|split; [|split; [|split]]].
+  - intro H. apply (detach_inv w known ir v F C Hir Kir H).
+  - intros k H. rewrite (ml_del_at_detach w known ir k v F H). cbn [snd].
+    apply (detach_inv w known ir v F C Hir Kir (nth_error_In _ _ H)).
+  - intro Gv. rewrite (ml_add_hook_eq w known ir v F). cbn [snd]. apply is_k_spec in Gv. destruct Gv as [Hv Kv].
+    apply (pre_detach_inv w known v F C Hv Kv).
+  - intros Gv i. apply (insert_inv w known ir i v F C G Gv).
+  - intro Gv. apply (insert_inv w known ir (Z.of_nat (length (kids w ir))) v F C G Gv).
+Qed.
+
+(* ---------- reach of an IR through the derived accessor ir_of ---------- *)
+Lemma desc_ir_of w known ir n :
+  Forest w known -> kindof w ir = KIR -> (desc w ir n <-> n = ir \/ ir_of w n = Some ir).
+Proof.
+  intros F Kir. split.
+  - intros [d Hd]. pose proof (upn_level w known F d n ir Hd) as Hl. rewrite Kir in Hl. cbn [level] in Hl.
+    destruct d as [|d]; [left; exact Hd|]. right. unfold ir_of.
+    destruct (kindof w n) eqn:Kn; cbn [level] in Hl.
+    + lia.
+    + assert (d = 0%nat) by lia. subst d. destruct Hd as [p [Hp E]]. cbn in E. subst. exact Hp.
+    + assert (d = 1%nat) by lia. subst d. destruct Hd as [p [Hp [q [Hq E]]]]. cbn in E. subst. rewrite Hp. exact Hq.
+    + assert (d = 2%nat) by lia. subst d. destruct Hd as [p [Hp [q [Hq [r [Hr E]]]]]]. cbn in E. subst.
+      rewrite Hp. cbn [bind_o]. rewrite Hq. exact Hr.
+    + assert (d = 3%nat) by lia. subst d. destruct Hd as [p [Hp [q [Hq [r [Hr [s [Hs E]]]]]]]]. cbn in E. subst.
+      rewrite Hp. cbn [bind_o]. rewrite Hq. cbn [bind_o]. rewrite Hr. exact Hs.
+    + assert (d = 3%nat) by lia. subst d. destruct Hd as [p [Hp [q [Hq [r [Hr [s [Hs E]]]]]]]]. cbn in E. subst.
+      rewrite Hp. cbn [bind_o]. rewrite Hq. cbn [bind_o]. rewrite Hr. exact Hs.
+    + assert (d = 1%nat) by lia. subst d. destruct Hd as [p [Hp [q [Hq E]]]]. cbn in E. subst. rewrite Hp. exact Hq.
+    + assert (d = 1%nat) by lia. subst d. destruct Hd as [p [Hp [q [Hq E]]]]. cbn in E. subst. rewrite Hp. exact Hq.
+  - intros [E|H]; [subst; apply desc_refl|]. unfold ir_of in H.
+    assert (H2 : forall a, bind_o (par w a) (par w) = Some ir -> desc w ir a).
+    { intros a Ha. destruct (par w a) as [p|] eqn:Hp; [|discriminate]. cbn [bind_o] in Ha.
+      eapply desc_step; [exact Hp|]. eapply desc_step; [exact Ha|]. apply desc_refl. }
+    assert (H3 : forall a, bind_o (par w a) (fun s => bind_o (par w s) (par w)) = Some ir -> desc w ir a).
+    { intros a Ha. destruct (par w a) as [p|] eqn:Hp; [|discriminate]. cbn [bind_o] in Ha.
+      eapply desc_step; [exact Hp|]. apply H2. exact Ha. }
+    destruct (kindof w n).
+    + discriminate.
+    + eapply desc_step; [exact H|]. apply desc_refl.
+    + apply H2. exact H.
+    + apply H3. exact H.
+    + destruct (par w n) as [p|] eqn:Hp; [|discriminate]. cbn [bind_o] in H. eapply desc_step; [exact Hp|]. apply H3. exact H.
+    + destruct (par w n) as [p|] eqn:Hp; [|discriminate]. cbn [bind_o] in H. eapply desc_step; [exact Hp|]. apply H3. exact H.
+    + apply H2. exact H.
+    + apply H2. exact H.
+Qed.
+
+Theorem reach_ir_of w known ir n :
+  Forest w known -> kindof w ir = KIR -> (In n (reach w ir) <-> n = ir \/ ir_of w n = Some ir).
+Proof. intros F K. rewrite (reach_char w known ir n F). apply (desc_ir_of w known ir n F K). Qed.
+
+Print Assumptions f2_preserves.
+Print Assumptions f2_no_keyerror.
+Print Assumptions hooks_no_keyerror.
+Print Assumptions reach_ir_of.
+Print Assumptions new_effect.
+Print Assumptions insert_effect.
+Print Assumptions insert_effect_fresh.
+Print Assumptions append_effect.
+Print Assumptions append_effect_fresh.
+Print Assumptions extend_effect.
+Print Assumptions remove_effect_in.
+Print Assumptions remove_effect_notin.
+Print Assumptions pop_effect_some.
+Print Assumptions pop_effect_none.
+Print Assumptions delitem_effect_some.
+Print Assumptions delitem_effect_none.
+Print Assumptions delslice_effect.
+Print Assumptions setitem_effect.
+Print Assumptions setitem_effect_index.
+Print Assumptions setitem_effect_refused.
+Print Assumptions setslice_effect.
+Print Assumptions setslice_effect_refused.
+Print Assumptions clear_effect.
+Print Assumptions reverse_effect.
+Print Assumptions setparent_none_effect.
+Print Assumptions setparent_some_effect.
+
+(* ---------- a concrete run: sanity check of the guards, and the un-clamped reading of the slice bounds ---------- *)
+Lemma inv_w0 : Forest w0 [] /\ CacheInv w0.
+Proof.
+  split.
+  - constructor.
+    + intro n. cbn. split; [discriminate|intros []].
+    + intros p c. cbn. split; [intros []|discriminate].
+    + intro p. constructor.
+    + intros p c H. discriminate.
+    + intros a b [].
+  - intros ir H. discriminate.
+Qed.
+
+Definition demo_ops : list op :=
+  [ONew 1 KIR 101 None 0 0 0 PNone; ONew 2 KMod 102 None 0 0 0 PNone; ONew 3 KMod 103 None 0 0 0 PNone;
+   OModAppend 1 2; OModAppend 1 3].
+
+Definition demo_world : world := fold_left step' demo_ops w0.
+Definition demo_known : list id := [3; 2; 1].
+
+Lemma demo_inv : Forest demo_world demo_known /\ CacheInv demo_world.
+Proof.
+  destruct inv_w0 as [F0 C0].
+  destruct (f2_preserves _ _ (ONew 1 KIR 101 None 0 0 0 PNone) F0 C0 eq_refl I) as [F1 C1].
+  destruct (f2_preserves _ _ (ONew 2 KMod 102 None 0 0 0 PNone) F1 C1 eq_refl I) as [F2' C2].
+  destruct (f2_preserves _ _ (ONew 3 KMod 103 None 0 0 0 PNone) F2' C2 eq_refl I) as [F3 C3].
+  destruct (f2_preserves _ _ (OModAppend 1 2) F3 C3 eq_refl I) as [F4 C4].
+  destruct (f2_preserves _ _ (OModAppend 1 3) F4 C4 eq_refl I) as [F5 C5].
+  split; [exact F5|exact C5].
+Qed.
+
+(* With the bounds of `step` NOT clamped (hi < lo), "firstn lo l ++ skipn hi l" is not the result:
+   del l[1:0] deletes nothing.  delslice_effect states the list with hi := max lo hi. *)
+Lemma delslice_unclamped_refuted :
+  exists w known ir a b,
+    Forest w known /\ CacheInv w /\ op_okb w known (OModDelSlice ir a b) = true /\
+    let l := kids w ir in
+    let lo := norm_bound a 0 (length l) in
+    let hi := norm_bound b (Z.of_nat (length l)) (length l) in
+    kids (step' w (OModDelSlice ir a b)) ir <> firstn (Z.to_nat lo) l ++ skipn (Z.to_nat hi) l.
+Proof.
+  exists demo_world, demo_known, 1, (Some 1), (Some 0).
+  split; [apply demo_inv|]. split; [apply demo_inv|]. split; [reflexivity|].
+  vm_compute. discriminate.
+Qed.
+
+Print Assumptions delslice_unclamped_refuted.
